@@ -37,7 +37,7 @@ def golit(b):
 
 
 def cinit(b):
-    return "{" + ",".join(str(x) for x in b) + ",0}"
+    return "{" + "".join("%d," % x for x in b) + "0}"
 
 
 def hexline(side, uid, tag, b):
@@ -231,7 +231,7 @@ func AllocCStr(s string) *c.Char
         "cab/cab.go": cab,
         "cab/csrc/callee.c": "\n".join(C) + "\n",
     }
-    return {"files": files, "exp_out": "\n".join(exp_out) + "\n", "exp_err": "\n".join(exp_err) + "\n", "meta": meta,
+    return {"files": files, "exp_out": "".join(x + "\n" for x in exp_out), "exp_err": "".join(x + "\n" for x in exp_err), "meta": meta,
             "nunits": len(units), "modname": modname, "cref": False}
 
 
@@ -328,5 +328,5 @@ def gen_cgo(seed, tier, modname="c09strc", kinds=None, n_each=None):
     main += ["\tprintln(\"G END\")", "}"]
     exp_err.append("G END")
     files = {"go.mod": "module %s\n\ngo 1.24\n" % modname, "main.go": "\n".join(main) + "\n"}
-    return {"files": files, "exp_out": "\n".join(exp_out) + "\n", "exp_err": "\n".join(exp_err) + "\n", "meta": meta,
+    return {"files": files, "exp_out": "".join(x + "\n" for x in exp_out), "exp_err": "".join(x + "\n" for x in exp_err), "meta": meta,
             "nunits": len(units), "modname": modname, "cref": False, "cgo": True}
